@@ -8,3 +8,5 @@ int vf_mkstemp(char *);
 #define mkstemp vf_mkstemp
 #include "mtbl/sorter.c"
 size_t vf_sizeof_sorter_entry(void) { return sizeof(struct entry); }
+/* number of entries still in memory (0 right after a chunk was handed off): lets a harness stop adding exactly at a flush */
+size_t vf_sorter_pending(struct mtbl_sorter *s) { return entry_vec_size(s->vec); }
